@@ -51,6 +51,10 @@ type Prog struct {
 	sharedStoreCache map[string]bool
 	acqCache map[*ssa.Function]map[string]string
 	pathFactCache map[*ssa.Function]map[*ssa.BasicBlock][]disjunct
+	callSiteCache map[*ssa.Function][]ssa.CallInstruction
+	valueUse map[*ssa.Function]bool
+	ifaceMethodNames map[string]bool
+	RenameNotes []string // renamed entities mapped back to their baseline names (rename.go)
 	Fixture bool // analysing /verif/fixtures: engines use the fixture tables
 }
 
@@ -171,6 +175,10 @@ func Load(dir string, env []string, tags string, universe []string) (*Prog, erro
 	if len(p.Funcs) == 0 {
 		return nil, fmt.Errorf("no functions in universe")
 	}
+	if universe == nil {
+		p.RenameNotes = p.installRenames()
+		sort.Slice(p.Funcs, func(i, j int) bool { return funcKey(p.Funcs[i]) < funcKey(p.Funcs[j]) })
+	}
 	return p, nil
 }
 
@@ -254,9 +262,14 @@ func funcKey(f *ssa.Function) string {
 			ptr = "*"
 		}
 		tn := types.TypeString(t, func(*types.Package) string { return "" })
-		return fmt.Sprintf("%s.(%s%s).%s", pk, ptr, tn, f.Name())
+		if n, ok := types.Unalias(t).(*types.Named); ok && n.Obj() != nil {
+			if cn := cTypeName(n.Obj()); cn != n.Obj().Name() && strings.HasPrefix(tn, n.Obj().Name()) {
+				tn = cn + tn[len(n.Obj().Name()):]
+			}
+		}
+		return fmt.Sprintf("%s.(%s%s).%s", pk, ptr, tn, cFuncName(f))
 	}
-	return pk + "." + f.Name()
+	return pk + "." + cFuncName(f)
 }
 
 func (p *Prog) Pos(pos token.Pos) string {
